@@ -43,6 +43,7 @@ var (
 )
 
 const coqHeader = "From Verif Require Import Lib.Base Mkvs.Trie Mkvs.Overlay Mkvs.Corr.\n"
+const coqHeaderC03 = "From Verif Require Import Lib.Base Mkvs.Trie Mkvs.Overlay Mkvs.Fork Mkvs.Corr.\n"
 
 // nn returns a non-nil copy of b (keys and values handed to the implementation are never nil).
 func nn(b []byte) []byte {
@@ -124,7 +125,7 @@ type Op struct {
 
 func (o Op) MarshalJSON() ([]byte, error) {
 	m := map[string]any{"k": o.K}
-	switch o.K {
+	switch strings.TrimPrefix(o.K, "b_") {
 	case "ins":
 		m["key"] = hex.EncodeToString(o.Key)
 		m["val"] = hex.EncodeToString(o.Val)
